@@ -347,6 +347,9 @@ fn c06_client(case: &Case) {
     if simkernel::choose(8) == 0 {
         return c06_stall_then_silent(case, listener, addr);
     }
+    if simkernel::choose(6) == 0 {
+        return c06_timeout_with_held_siblings(case, listener, addr);
+    }
     case.sample(json!({"scenario": "connection-fault", "in_flight": n_inflight, "kill": format!("{kill:?}"),
         "server_reads": read_first, "server_answers": answer_first, "per_call_timeouts": with_timeouts}));
 
@@ -563,6 +566,96 @@ fn c06_timeout_race(case: &Case, listener: TcpListener, addr: std::net::SocketAd
     drop(client);
     server.join().ok();
     case.nontrivial();
+}
+
+/// One call times out while 2-5 sibling calls (lower and higher ids) are still pending; the
+/// server answers the siblings only afterwards, in a seeded order. Every sibling must get
+/// its own reply, nothing stays pending.
+fn c06_timeout_with_held_siblings(case: &Case, listener: TcpListener, addr: std::net::SocketAddr) {
+    let timeout_ms = pick(&[5u64, 20, 100]);
+    let n_sib = range(2, 5) as u64;
+    let victim_pos = simkernel::choose(n_sib as u32 + 1) as u64; // how many siblings start before the victim
+    let answer_victim_late = coin();
+    case.sample(json!({"scenario": "timeout-with-held-siblings", "timeout_ms": timeout_ms, "siblings": n_sib, "siblings_started_before_victim": victim_pos, "late_victim_response": answer_victim_late}));
+    net::set_config(NetConfig { capacity: 65_536, lat_min: 0, lat_max: pick(&[0u64, 50_000]), max_segment: 0 });
+    let total = n_sib + 1;
+    let server = thread::spawn(move || {
+        let Ok((mut s, _)) = listener.accept() else { return };
+        s.set_read_timeout(Some(Duration::from_millis(2_000))).ok();
+        let mut held: Vec<Frame> = Vec::new();
+        while (held.len() as u64) < total {
+            match read_frame(&mut s) {
+                Ok(Some(f)) => held.push(f),
+                _ => return,
+            }
+        }
+        // well past the victim's deadline
+        thread::sleep(Duration::from_millis(timeout_ms + 20));
+        while !held.is_empty() {
+            let f = held.remove(simkernel::choose(held.len() as u32) as usize);
+            if f.query_str().ends_with("/victim") && !answer_victim_late {
+                continue;
+            }
+            if write_all_retry(&mut s, &echo_of(&f).encode()).is_err() {
+                return;
+            }
+        }
+        // keep the connection up for the follow-up call
+        loop {
+            match read_frame(&mut s) {
+                Ok(Some(f)) => {
+                    if write_all_retry(&mut s, &echo_of(&f).encode()).is_err() {
+                        return;
+                    }
+                }
+                _ => return,
+            }
+        }
+    });
+    let client = match Client::connect(addr) {
+        Ok(c) => c,
+        Err(e) => {
+            case.harness_error(format!("connect failed: {e}"));
+            return;
+        }
+    };
+    let mut hs = Vec::new();
+    let mut victim = None;
+    for k in 0..=n_sib {
+        let c = client.clone();
+        let case = case.clone();
+        if k == victim_pos {
+            victim = Some(thread::spawn(move || {
+                let r = c.call_with_formats_and_timeout("/echo/victim", 1, Some(b"victim-body"), 0, Duration::from_millis(timeout_ms));
+                case.check(r.is_err(), "ok-without-response", || "the victim was answered only after its deadline but returned Ok".into());
+            }));
+        } else {
+            let t = 100 + k;
+            hs.push(thread::spawn(move || {
+                if let Err(e) = do_call(&c, CallKind::Json, t, None) {
+                    let class = if e.starts_with("WRONG-RESPONSE") { "wrong-response" } else { "unrelated-call-failed" };
+                    case.fail(class, format!("sibling call {t} of a timed-out call: {e}"));
+                }
+            }));
+        }
+        // ids are minted in start order: let each caller register before the next starts
+        thread::sleep(Duration::from_micros(200));
+    }
+    if let Some(v) = victim {
+        v.join().ok();
+    }
+    for h in hs {
+        h.join().ok();
+    }
+    thread::sleep(Duration::from_millis(50));
+    if let Err(e) = do_call(&client, CallKind::Json, 777, None) {
+        case.fail("unrelated-call-failed", format!("call after a timed-out call: {e}"));
+    }
+    case.check(client.verif_pending_len() == 0, "pending-residue", || format!("{} pending entries after timeout with siblings", client.verif_pending_len()));
+    drop(client);
+    server.join().ok();
+    case.nontrivial();
+    case.probe("timeout_with_siblings_pending");
 }
 
 /// A misbehaving peer: it does not read for longer than the call's timeout, then drains
